@@ -603,7 +603,11 @@ func (m *Machine) runFrame(fr *frame) {
 		}
 		if _, ok := r.(targetPanic); !ok {
 			// interpreter bug or unsupported construct surfacing as a Go run-time error
-			panic(pathEnd{"engine", fmt.Sprintf("%v in %s\n%s", r, fr.fn, debug.Stack())})
+			chain := ""
+			for f, n := fr, 0; f != nil && n < 12; f, n = f.caller, n+1 {
+				chain += " <- " + f.fn.String()
+			}
+			panic(pathEnd{"engine", fmt.Sprintf("%v in %s [interpreted stack:%s]\n%s", r, fr.fn, chain, debug.Stack())})
 		}
 		fr.panicking = true
 		fr.panic = r
@@ -624,6 +628,7 @@ func (m *Machine) runFrame(fr *frame) {
 			if m.dead {
 				panic(pathEnd{"killed", ""})
 			}
+			m.curInstr, m.curFrame = instr, fr
 			if m.visitInstr(fr, instr) == kReturn {
 				return
 			}
